@@ -222,11 +222,15 @@ def weights(ctx, obs, rule='WEIGHT'):
     for n in ast.walk(f2.node):
         if isinstance(n, ast.If) and isinstance(n.test, ast.Compare) and isinstance(n.test.left, ast.Name) \
                 and n.test.left.id == 'weights':
-            ok = any(isinstance(x, ast.Assign) and isinstance(x.targets[0], ast.Subscript)
-                     and any(isinstance(y, ast.Call) and _leaf(y.func) == 'isnan' for y in ast.walk(x.targets[0].slice))
-                     for x in ast.walk(n))
-            obs.check(ok, rule, q2, 'default weights are NaN where the dissimilarity is missing',
-                      'default weights are not masked by isnan(vectors)', '', where(prog, f2, n))
+            mentions_mask = any(isinstance(y, ast.Call) and _leaf(y.func) in ('isnan', 'isfinite') for y in ast.walk(n))
+            idiom = nan_mask_idiom(n)
+            con = 'default weights are NaN where the dissimilarity is missing'
+            if idiom:
+                obs.ok(rule, q2, con, idiom, where(prog, f2, n))
+            elif not mentions_mask:
+                obs.bad(rule, q2, con, 'default weights are not masked by isnan(vectors)', where(prog, f2, n))
+            else:
+                obs.unk(rule, q2, con, 'an isnan / isfinite mask is computed but the masking idiom is not recognised', where(prog, f2, n))
 
 
 def vblock(ctx, obs, rule='VBLOCK'):
@@ -348,3 +352,26 @@ def _row_of_unary(e, call) -> bool:
         if isinstance(p, ast.Subscript) and isinstance(p.slice, ast.Constant) and isinstance(p.value, ast.UnaryOp) and p.value.operand is call:
             return True
     return False
+
+
+def nan_mask_idiom(root) -> str:
+    """one of the ways of writing NaN into an array where a missing-entry mask holds:
+       w[mask] = nan ; np.putmask(w, mask, nan) ; np.place(w, mask, nan) ; w = np.where(mask, nan, w) ; np.copyto(w, nan, where=mask)"""
+    def is_mask(e):
+        return any(isinstance(y, ast.Call) and _leaf(y.func) in ('isnan', 'isfinite') for y in ast.walk(e)) or isinstance(e, ast.Name)
+
+    def is_nan(e):
+        return (isinstance(e, ast.Attribute) and e.attr == 'nan') or (isinstance(e, ast.Name) and e.id.lower() == 'nan')
+    for x in ast.walk(root):
+        if isinstance(x, ast.Assign) and isinstance(x.targets[0], ast.Subscript) and is_nan(x.value) and is_mask(x.targets[0].slice) \
+                and any(isinstance(y, ast.Call) and _leaf(y.func) in ('isnan', 'isfinite') for y in ast.walk(root)):
+            return 'w[mask] = nan'
+        if isinstance(x, ast.Call) and _leaf(x.func) in ('putmask', 'place') and len(x.args) == 3 and is_nan(x.args[2]) and is_mask(x.args[1]):
+            return f'np.{_leaf(x.func)}(w, mask, nan)'
+        if isinstance(x, ast.Call) and _leaf(x.func) == 'where' and len(x.args) == 3 and is_mask(x.args[0]) \
+                and (is_nan(x.args[1]) or is_nan(x.args[2])):
+            return 'np.where(mask, nan, w)'
+        if isinstance(x, ast.Call) and _leaf(x.func) == 'copyto' and any(k.arg == 'where' for k in x.keywords) and len(x.args) >= 2 \
+                and is_nan(x.args[1]):
+            return 'np.copyto(w, nan, where=mask)'
+    return ''
